@@ -358,6 +358,8 @@ def run_fragment(body: Sequence[ast.stmt], names: Dict[str, Any], attrs: Optiona
                     vs = _shp1(val) if isinstance(val, list) else []
                     if isinstance(val, list):
                         _reg1(val)
+                    while len(vs) > len(tshape) and vs and vs[0] == 1:
+                        val, vs = val[0], vs[1:]  # leading axes of length 1 of the stored value are dropped (as torch's setitem does)
                     if len(vs) > len(tshape) or any(a_ != b_ and a_ != 1 for a_, b_ in zip(vs[::-1], tshape[::-1])):
                         raise Unfoldable("store shape mismatch")
 
